@@ -585,7 +585,7 @@ impl Prop for NotifProp {
         Describe {
             level: "exploration",
             rule: "each case = one seeded run of 2-3 complete litep2p nodes with a notification protocol on SimNet: in a third of the runs ghost n+1 is a live peer that registers the protocol name as a raw user protocol and plays the two-substream handshake badly (no reply / reply only / reply and close / complete then silence, oversize frame, unterminated varint or close / initiate and go silent), a quarter of the commands then target it; materialised user commands on every endpoint (open, close, simultaneous opens, sync/async notification bursts, reader stalls, validation-policy changes), fault plan (resets, half-closes, byte-offset cuts and single-bit corruption in flight, partitions, refused / black-holed / slow connects, node kill with reset or silent vanish, crash + restart with the same identity, process stalls), channel sizes, auto-accept, scheduler kind and knobs, followed by a fault-free final phase that resets the users and opens a canary stream between every pair; non-trivial = scheduler had >=1 choice point; distinct = distinct trace hash".into(),
-            real: vec!["Litep2p", "TransportManager", "TcpTransport/TcpConnection", "multistream-select", "Noise", "yamux", "NotificationProtocol + HandshakeService + Connection + NotificationHandle/NotificationSink", "TransportService", "substream framing"],
+            real: vec!["Litep2p", "TransportManager", "TcpTransport/TcpConnection", "WebSocketTransport/WebSocketConnection + tokio-tungstenite (runs with the second transport)", "multistream-select", "Noise", "yamux", "NotificationProtocol + HandshakeService + Connection + NotificationHandle/NotificationSink", "TransportService", "substream framing"],
             stub: vec!["socket layer (SimNet)", "clock (incl. futures_timer::Delay via hook H2)", "task scheduler (seeded)", "HashMap seeds"],
             assumptions: vec![
                 "pre-emption granularity is the task poll",
